@@ -25,7 +25,13 @@ import (
 	"verif/sim/tape"
 )
 
-const verifDir = "/verif"
+// verifDir is /verif, or the snapshot a background run works in (VERIF_DIR).
+var verifDir = func() string {
+	if d := os.Getenv("VERIF_DIR"); d != "" {
+		return d
+	}
+	return "/verif"
+}()
 
 type Violation struct {
 	Prop   string `json:"prop"`
@@ -85,6 +91,7 @@ type Spec struct {
 }
 
 type Job struct {
+	Thorough bool    `json:"thorough"`
 	Prop     string  `json:"prop"`
 	Mode     string  `json:"mode"`
 	Seed     uint64  `json:"seed"`
@@ -109,6 +116,7 @@ func trouble(format string, a ...any) {
 
 var workerBin = filepath.Join(verifDir, "bin", "worker.test")
 var raceBin = filepath.Join(verifDir, "bin", "worker.race.test")
+var thorough bool
 
 func build(race bool) {
 	args := []string{"test", "-c", "-tags", "verif", "-o", workerBin, "./worker"}
@@ -202,7 +210,7 @@ type server struct {
 }
 
 func (s *server) start() {
-	jb, _ := json.Marshal(Job{Prop: s.prop, Mode: "serve"})
+	jb, _ := json.Marshal(Job{Thorough: thorough, Prop: s.prop, Mode: "serve"})
 	s.cmd = exec.Command(s.bin, "-test.run", "^TestWorker$", "-test.timeout", "0")
 	s.cmd.Env = append(os.Environ(), "VERIF_JOB="+string(jb))
 	s.in, _ = s.cmd.StdinPipe()
@@ -389,6 +397,7 @@ func main() {
 		*workers = min(16, runtime.NumCPU())
 	}
 	start := time.Now()
+	thorough = *tier == "thorough"
 	fmt.Printf("check %s tier=%s VERIF_SEED=%d\n", prop, *tier, int64(seed))
 
 	build(false)
@@ -436,7 +445,7 @@ func main() {
 			remaining := deadline
 			t0 := time.Now()
 			for {
-				job := Job{Prop: prop, Mode: "gen", Seed: seed, From: from, To: nRuns, Stride: W, Deadline: remaining, Log: *detLog != ""}
+				job := Job{Thorough: thorough, Prop: prop, Mode: "gen", Seed: seed, From: from, To: nRuns, Stride: W, Deadline: remaining, Log: *detLog != ""}
 				wo := runWorker(workerBin, job)
 				mu.Lock()
 				if wo.errLine != "" {
@@ -791,7 +800,7 @@ func recoverTape(prop string, seed, index uint64) []uint32 {
 	name := f.Name()
 	f.Close()
 	defer os.Remove(name)
-	runWorker(workerBin, Job{Prop: prop, Mode: "gen", Seed: seed, From: index, To: index + 1, Stride: 1}, "VERIF_TAPE_LOG="+name)
+	runWorker(workerBin, Job{Thorough: thorough, Prop: prop, Mode: "gen", Seed: seed, From: index, To: index + 1, Stride: 1}, "VERIF_TAPE_LOG="+name)
 	b, _ := os.ReadFile(name)
 	var out []uint32
 	for _, l := range strings.Fields(string(b)) {
@@ -940,7 +949,7 @@ func traceOfCrash(prop string, data []uint32) []string {
 	name := f.Name()
 	f.Close()
 	defer os.Remove(name)
-	jb, _ := json.Marshal(Job{Prop: prop, Mode: "serve"})
+	jb, _ := json.Marshal(Job{Thorough: thorough, Prop: prop, Mode: "serve"})
 	cmd := exec.Command(workerBin, "-test.run", "^TestWorker$", "-test.timeout", "0")
 	cmd.Env = append(os.Environ(), "VERIF_JOB="+string(jb), "VERIF_TRACE_LOG="+name)
 	b, _ := json.Marshal(data)
